@@ -79,6 +79,32 @@ def hook_cases(rng, count):
         yield base_case(n, nE, [0, 1], t, o, {pos: seq}, before=hooks['before'], after=hooks['after'])
 
 
+def offset_cases(rng, count):
+    """Non-zero in-span offsets with a non-finite value sitting at t, at t + offset, or nowhere: 'pre-existing' refers to
+    the values the first pass starts from, i.e. after the copy."""
+    for _ in range(count):
+        n, nE = rng.choice([3, 4]), 2
+        t = rng.randrange(-n, n)
+        pos = t + n if t < 0 else t
+        offs = [k for k in (-2, -1, 1, 2) if 0 <= pos + k < n]
+        if not offs:
+            continue
+        off = rng.choice(offs)
+        seq = [rng.choice(['far', 'close', 'same', 'nan', 'pinf', 'raise', 'warn']) for _ in range(rng.randint(0, 4))]
+        M = rng.choice([1, 2, 3, 5])
+        o = mkopts(rng.choice([0, 0, 1, 2]) if M > 1 else 0, M, off, rng.choice(['raise', 'ignore']), rng.choice(ERRORS),
+                   rng.choice([True, False]))
+        o['min_iter'] = min(o['min_iter'], M)
+        vals = [[float(i + 1 + 10 * p) for p in range(n)] for i in range(nE)]
+        where = rng.choice(['none', 'at_t', 'at_source', 'at_source', 'both'])
+        bad = rng.choice([float('nan'), float('inf'), float('-inf')])
+        if where in ('at_t', 'both'):
+            vals[rng.randrange(nE)][pos] = bad
+        if where in ('at_source', 'both'):
+            vals[rng.randrange(nE)][pos + off] = bad
+        yield base_case(n, nE, [0, 1], t, o, {pos: seq}, vals=vals)
+
+
 def finite(v):
     return all(np.isfinite(x) for x in v)
 
@@ -87,13 +113,17 @@ def expected(case):
     """The documented state machine, computed from the script alone. Returns None where the property is silent."""
     n, nE, t, o = case['n'], case['nE'], case['t'], case['opts']
     pos = t + n if t < 0 else t
-    if o['min_iter'] > o['max_iter'] or o['offset']:
+    if o['min_iter'] > o['max_iter']:
+        return None
+    src = pos + o['offset']
+    if not (0 <= src < n):
         return None
     E = o['errors']
     strict = (E == 'raise' and o['catch_first_error'])
     before = case['before'][pos] if pos < len(case['before']) else {'k': 'keep'}
     after = case['after'][pos] if pos < len(case['after']) else {'k': 'keep'}
-    cur_all = [unbits(case['vals'][i][pos]) for i in range(nE)]
+    # the starting state is what the first pass starts from: with a non-zero offset, the values of t + offset
+    cur_all = [unbits(case['vals'][i][src]) for i in range(nE)]
     v0 = [cur_all[i] for i in case['check']]
     st0, it0 = case['status'][pos], case['iters'][pos]
     if E == 'raise' and not finite(v0):
@@ -274,6 +304,8 @@ def _work(ctx, rep):
         check_cases(ctx, rep, cases[i:i + 5000], 'placement')
     rng = ctx.sub_rng('hooks')
     check_cases(ctx, rep, list(hook_cases(rng, (2000 if ctx.tier == 'quick' else 200000) * ctx.scale // ctx.parts)), 'hooks')
+    rng = ctx.sub_rng('offsets')
+    check_cases(ctx, rep, list(offset_cases(rng, (2500 if ctx.tier == 'quick' else 200000) * ctx.scale // ctx.parts)), 'offset')
     rng = ctx.sub_rng('natural')
     batch = []
     for _ in range((400 if ctx.tier == 'quick' else 40000) * ctx.scale // ctx.parts):
